@@ -110,6 +110,8 @@ Definition expected_suite (fn : N) (ins : list bytes) (ns : list N) : option (li
   | 70, [ms; cr; sr; cid; payload], [id; cl; e; s; t; v] => protect12 false id (nb cl) ms cr sr cid payload e s t v
   | 71, [ms; cr; sr; cid; payload], [id; cl; e; s; t; v] => protect12 false id (nb cl) ms cr sr cid payload e s t v
   | 72, [ms; cr; sr; cid; payload], [id; cl; e; s; t; v] => protect12 true id (nb cl) ms cr sr cid payload e s t v
+  | 73, [ms; cr; sr; cid; payload; eiv], [id; cl; e; s; t; v] => live_record12 false id (nb cl) ms cr sr cid payload eiv e s t v
+  | 74, [ms; cr; sr; cid; payload; eiv], [id; cl; e; s; t; v] => live_record12 true id (nb cl) ms cr sr cid payload eiv e s t v
   | _, _, _ => None
   end.
 
